@@ -337,10 +337,18 @@ func (b *bootstrapContext) DeleteConfig(ctx context.Context, bucketName, groupID
 		if err != nil {
 			return false, base.RedactErrorf("Error fetching registry to finalize delete of config group: %s, database: %s: %w", base.MD(groupID), base.MD(dbName), err), nil
 		}
-		if !registry.removeDatabase(groupID, dbName) {
+		registryDb, found := registry.getRegistryDatabase(groupID, dbName)
+		if !found {
 			base.InfofCtx(ctx, base.KeyConfig, "Database not found in registry during finalization")
 			return false, nil, nil
 		}
+		// Only remove the registry entry if it's still the deleted marker written in step 2. Otherwise the database has
+		// been concurrently recreated, and the registry entry now belongs to the new database.
+		if !registryDb.IsDeleted() {
+			base.InfofCtx(ctx, base.KeyConfig, "Database has been recreated in registry with version %s, skipping finalization of delete", registryDb.Version)
+			return false, nil, nil
+		}
+		registry.removeDatabase(groupID, dbName)
 		writeErr := b.setGatewayRegistry(ctx, bucketName, registry)
 		if writeErr == nil {
 			return false, nil, nil
